@@ -20,7 +20,8 @@ RULE = ('sorted fragment sequences (NLA / CHIC / plain Fragment; 1-4 cells; shor
         'molecules became ejectable; several contigs) x cache size in {1000,2000,10000} x pooling 0/1 x hamming 0/1; for inputs of n<=60 '
         'fragments EVERY check_eject_every in 0..n plus None is executed (exhaustive over schedules), for larger inputs sampled intervals. '
         'Non-trivial = (input, schedule) run in which at least one molecule was emitted before the input was exhausted and the input has a '
-        'molecule of >=2 fragments; distinct = distinct (input seed, cache, pooling, schedule).')
+        'molecule of >=2 fragments; distinct = distinct (input seed, cache, pooling, schedule).'
+        ' Plus max_associated_fragments 2 / 3 and cross-contig twins (same cell, UMI, strand, start, end on the next contig).')
 ASSUMPTIONS = ['precondition of the property: coordinate sorted input and every fragment span + read length shorter than cache_size/2',
                'schedules are the deterministic ejection interval of a single-threaded generator']
 MIN_NONTRIVIAL = {'quick': 1500, 'thorough': 60000}
